@@ -1,6 +1,8 @@
 (* C16 — wire format, model runner and the trace oracle prop_ok. Definitions only.
 
-   case  = k local nmgr (peer v)*  nknown peer*  nevents event*
+   case  = k local nmgr (peer v)*  nknown peer*  cap  nevents event*
+           (cap = 0: the shipped event channel, never full in a case; cap > 0: an event channel of cap slots,
+            the user receives with event 13 and the trace has the bounded group format)
            (known: peers put into the routing table before the first event; the routing table is
             not modelled, its answers are the seeds / peer lists written into the events)
    event = 0 q ctag qtag qn local ndists d* nseeds s*     user command; ctag 0 find_node, 1 put_record,
@@ -31,7 +33,7 @@ From V.C16 Require Import Model.
 Import ListNotations.
 Open Scope N_scope.
 
-Record case := mkCase { k_g : gcfg; k_mgr : list (N * N); k_events : list ev }.
+Record case := mkCase { k_g : gcfg; k_mgr : list (N * N); k_cap : N; k_events : list bev }.
 
 (* count-prefixed list with a constant bound on the count (Wire.plist measures the remaining input
    on every call, which is quadratic on the long traces of this property) *)
@@ -61,8 +63,7 @@ Definition p_msg : parser msg :=
   | _ => pfail
   end.
 
-Definition p_event : parser ev :=
-  let* tag := pN in
+Definition p_ev (tag : N) : parser ev :=
   match tag with
   | 0 => let* q := pN in let* ctag := pN in let* qtag := pN in let* qn := pN in let* local := pBool in
          let* dists := plist pN in let* seeds := plist pN in
@@ -99,12 +100,23 @@ Definition p_event : parser ev :=
   | _ => pfail
   end.
 
+Definition p_event : parser bev :=
+  let* tag := pN in
+  match tag with
+  | 13 => pret BRecv
+  | _ => let* e := p_ev tag in pret (BEv e)
+  end.
+
 Definition p_case : parser case :=
   let* k := pN in let* local := pN in
   let* m := plist p_pair in
   let* _known := plist pN in
+  let* cap := pN in
   let* evs := plist p_event in
-  pret (mkCase (mkG k V.gen.Consts.PARALLELISM_FACTOR local) m evs).
+  pret (mkCase (mkG k V.gen.Consts.PARALLELISM_FACTOR local) m cap evs).
+
+Definition plain_events (l : list bev) : list ev :=
+  map (fun b => match b with BEv e => e | BRecv => ENop end) l.
 
 Definition decode_case (l : list N) : option case := pall p_case l.
 
@@ -184,9 +196,30 @@ Fixpoint run_groups (g : gcfg) (s : st) (open : bool) (ok : bool) (outs : list o
       else (if open then flush s ok outs else []) ++ run_groups g s1 true f o t
   end.
 
+(* bounded channel: group = ok parked nrecv out* [dump]   (dump only when the loop is not parked) *)
+Definition parked (b : bst) : bool := match b_back b with [] => false | _ => true end.
+Definition flush_b (b : bst) (ok : bool) (rcv : list out) : list N :=
+  b2n (ok && (parked b || quiescent (b_st b))) :: b2n (parked b) :: enc_list enc_out rcv ++
+  (if parked b then [] else dump (b_st b)).
+
+Definition bev_serve (e : bev) : bool := match e with BEv e' => is_serve e' | BRecv => false end.
+
+Fixpoint run_groups_b (g : gcfg) (cap : nat) (b : bst) (open : bool) (ok : bool) (rcv : list out)
+         (es : list bev) : list N :=
+  match es with
+  | [] => if open then flush_b b ok rcv else []
+  | e :: t =>
+      let '(b1, r, f) := bstep g cap b e in
+      if bev_serve e then run_groups_b g cap b1 open (ok && f) (rcv ++ r) t
+      else (if open then flush_b b ok rcv else []) ++ run_groups_b g cap b1 true f r t
+  end.
+
 Definition run_case (l : list N) : list N :=
   match decode_case l with
-  | Some k => 1 :: run_groups (k_g k) (st0 (k_mgr k)) false true [] (k_events k)
+  | Some k =>
+      if k_cap k =? 0
+      then 1 :: run_groups (k_g k) (st0 (k_mgr k)) false true [] (plain_events (k_events k))
+      else 2 :: run_groups_b (k_g k) (N.to_nat (k_cap k)) (b0 (k_mgr k)) false true [] (k_events k)
   | None => [0]
   end.
 
@@ -365,10 +398,53 @@ Fixpoint owes (sel : list ev) (grs : list group) (conn od ans : list N) (prev : 
 Fixpoint last_error {A} (l : list A) : option A :=
   match l with [] => None | [x] => Some x | _ :: t => last_error t end.
 
-Definition prop_ok (c t : list N) : bool :=
-  match decode_case c, decode_trace t with
-  | Some k, Some grs =>
-      let es := k_events k in
+(* bounded traces *)
+Record groupb := mkGroupB { gb_parked : bool; gb_rcv : list out; gb_dump : option dview }.
+Definition p_groupb : parser groupb :=
+  let* _ok := pBool in let* pk := pBool in let* rcv := plist p_out in
+  if pk then pret (mkGroupB true rcv None)
+  else let* d := p_dump in pret (mkGroupB false rcv (Some d)).
+Fixpoint p_groupsb (fuel : nat) : parser (list groupb) :=
+  fun l =>
+    match l with
+    | [] => Some ([], [])
+    | _ => match fuel with
+           | O => None
+           | S f => (let* gr := p_groupb in let* t := p_groupsb f in pret (gr :: t)) l
+           end
+    end.
+Definition decode_trace_b (t : list N) : option (list groupb) :=
+  match t with
+  | 2 :: r => pall (p_groupsb (length r)) r
+  | _ => None
+  end.
+
+Fixpoint last_opt {A} (l : list A) : option A :=
+  match l with [] => None | [x] => Some x | _ :: t => last_opt t end.
+
+(* what the user RECEIVED is judged: at most one terminal event per operation, none for unknown ids;
+   when the case ends with the loop waiting in select!, nothing pending in the glue maps and an empty
+   channel (the last receive returned nothing), every started operation has reported *)
+Definition prop_ok_b (k : case) (grs : list groupb) : bool :=
+  let es := plain_events (k_events k) in
+  let outs := flat_map gb_rcv grs in
+  let ids := started_ids es in
+  forallb (fun q => Nat.leb (count_terms q outs) 1) ids &&
+  forallb (fun o => match term_of o with Some q => nmem q ids | None => true end) outs &&
+  match last_opt grs, last_opt (k_events k) with
+  | Some gr, Some BRecv =>
+      match gb_dump gr, gb_rcv gr with
+      | Some d, [] =>
+          if (match d_dials d with [] => true | _ => false end) &&
+             (match d_subs d with [] => true | _ => false end) && (d_nfuts d =? 0)
+          then forallb (fun q => Nat.eqb (count_terms q outs) 1) ids else true
+      | _, _ => true
+      end
+  | _, _ => true
+  end.
+
+Definition prop_ok_u (k : case) (grs : list group) : bool :=
+      let es := plain_events (k_events k) in
       let outs := flat_map gr_outs grs in
       let ids := started_ids es in
       (* one group per select! event *)
@@ -380,9 +456,15 @@ Definition prop_ok (c t : list N) : bool :=
       (if owes (sel_events es) grs [] [] [] dv0 then true
        else forallb (fun q => Nat.eqb (count_terms q outs) 1) ids) &&
       (* quorum honesty *)
-      honest es (sel_events es) grs [] [] []
-  | Some _, None => false
-  | None, _ => true
+      honest es (sel_events es) grs [] [] [].
+
+Definition prop_ok (c t : list N) : bool :=
+  match decode_case c with
+  | Some k =>
+      if k_cap k =? 0
+      then match decode_trace t with Some grs => prop_ok_u k grs | None => false end
+      else match decode_trace_b t with Some grs => prop_ok_b k grs | None => false end
+  | None => true
   end.
 
 Definition known_class (c t : list N) : N := 0.
